@@ -4,7 +4,7 @@ from . import core, gen
 
 LEVEL = {}  # property -> evidence level
 TRUSTED = [
-    'Coq 8.16.1 kernel including the vm_compute virtual machine (no native_compute); coqchk run in setup',
+    'Coq 8.16.1 kernel including the vm_compute virtual machine (no native_compute); coqchk run per property file in setup (time-limited, see build/coqchk.log)',
     'axioms: none declared by this development; Print Assumptions output for the property theorems is recorded in coverage.print_assumptions',
     'harness/vf/gen.py (python ast translator of literal tables and of pure integer functions into Gen/*.v; Python int arithmetic is identified with Z.add/Z.sub/Z.mul/Z.modulo)',
     'harness/vf: float->exact-rational conversion, serialisation of cases into Coq terms, generators, classifier',
